@@ -155,12 +155,16 @@ def replay(schedules, tag):
             suspects = [s for s in todo if s['name'] in started and s['name'] not in done]
             culprits = []
             for s in suspects:
+                if len(crashes) >= 3:
+                    break
                 wd1 = scratch('rp1_%s_%s' % (tag, mk))
                 hits, last = 0, ''
                 for k in range(3):
                     rc1, o1, _, _ = _run_vh(vh, wd1, [s], 1)
                     if rc1 != 0 and is_lib_crash(o1):
                         hits += 1; last = o1
+                        if hits >= 2:
+                            break
                 shutil.rmtree(wd1, ignore_errors=True)
                 if hits:
                     culprits.append(s['name'])
@@ -172,8 +176,14 @@ def replay(schedules, tag):
                                 'suspects': [s['name'] for s in suspects], 'panic': o[o.find('panic:'):][:2500]})
                 culprits = [s['name'] for s in suspects]
             todo = [s for s in todo if s['name'] not in culprits]
+            if len(crashes) >= 3:
+                todo = None
+                break
         else:
-            raise Machinery('harness keeps crashing after removing culprits')
+            # still crashing after several culprits were removed: enough evidence, skip the rest of this group
+            continue
+        if todo is None:
+            break       # enough crashes for a verdict: do not grind through the remaining groups
         out[mk] = (os.path.join(wd, 'trace.ndjson'), json.load(open(os.path.join(wd, 'res.json'))), todo)
     return out, crashes
 
@@ -258,3 +268,43 @@ def owner_of(f):
 def signature(f):
     ev = f['event'].get('ev', '')
     return '%s:%s@%s' % (f['kind'], f['what'] if f['kind'] == 'invariant' else 'rejected', ev)
+
+
+def run_stress(cfgs, tag, shards=8, timeout=600):
+    """Run stress configurations in parallel worker subprocesses. Returns (results, crashes)."""
+    import subprocess
+    vh = build_harness()
+    wd = scratch('st_' + tag)
+    procs = []
+    groups = [cfgs[i::shards] for i in range(shards)]
+    for i, g in enumerate(groups):
+        if not g:
+            continue
+        fin, fout = os.path.join(wd, 'in%d.json' % i), os.path.join(wd, 'out%d.json' % i)
+        json.dump(g, open(fin, 'w'))
+        env = dict(os.environ, GOTRACEBACK='all', VERIF_SOCKDIR=wd)
+        p = subprocess.Popen([vh, 'stress', '-in', fin, '-out', fout], cwd=wd, env=env, stdout=subprocess.PIPE,
+                             stderr=subprocess.STDOUT, universal_newlines=True)
+        procs.append((p, g, fout))
+    results, crashes = [], []
+    for p, g, fout in procs:
+        try:
+            o, _ = p.communicate(timeout=timeout)
+        except subprocess.TimeoutExpired:
+            p.kill(); o, _ = p.communicate()
+            o += '\n[harness] stress worker timed out'
+        done = []
+        if os.path.exists(fout):
+            try: done = json.load(open(fout)) or []
+            except ValueError: done = []
+        results.extend(done)
+        if p.returncode != 0:
+            cur = g[len(done)] if len(done) < len(g) else None
+            if is_lib_crash(o):
+                i = o.find('panic:') if 'panic:' in o else o.find('fatal error:')
+                crashes.append({'config': cur, 'panic': o[i:i + 2500]})
+            else:
+                raise Machinery('stress worker failed (rc=%s):\n%s' % (p.returncode, o[-2500:]))
+    if not os.environ.get('VERIF_KEEP'):
+        shutil.rmtree(wd, ignore_errors=True)
+    return results, crashes
